@@ -8,6 +8,7 @@ import (
 	"fmt"
 	"go/token"
 	"go/types"
+	"os"
 	"runtime"
 	"strings"
 	"sync"
@@ -291,6 +292,9 @@ func (i *interpreter) getenv(k value) value {
 		if v, ok := i.env[name]; ok {
 			return v
 		}
+	}
+	if strings.HasPrefix(name, "GOSX_") {
+		return os.Getenv(name) // harness parameters (tier) are visible to harness code
 	}
 	return ""
 }
